@@ -1205,6 +1205,9 @@ const EXPR_HOSTS: &[(&str, &str)] = &[
     // argument and gets its flags from the dispatcher, not from the call set-up
     ("%sysfunc(f(1,", "))"),
     ("%qsysfunc(f(1,2,", "),best.)"),
+    // the routine arguments of %syscall
+    ("%syscall f(", ");"),
+    ("%syscall f(a,", ",b);"),
 ];
 
 pub fn flatten(pieces: &[Piece]) -> String {
@@ -1578,7 +1581,7 @@ fn c13_items(tier: Tier) -> Vec<Vec<Piece>> {
             if bi >= 4 && hp.starts_with("%sysevalf") {
                 continue;
             }
-            let stat = hp.starts_with("%do") || hp.starts_with("%if");
+            let stat = hp.starts_with("%do") || hp.starts_with("%if") || hp.starts_with("%syscall");
             let mut v = if stat { vec![other(hp)] } else { vec![other("%put "), other(hp)] };
             v.extend(body);
             v.push(other(hs));
